@@ -116,6 +116,27 @@ def _digit_pred_fn(ctx, b, point):
     return False
 
 
+def _not_digit_pred_fn(ctx, b, point):
+    """the closure used at `point` answers `!x.is_ascii_digit()` and nothing else"""
+    blk = b.points[point][0]
+    for (p, fj) in b.fn_values:
+        if not (b.pstart[blk] <= p <= point):
+            continue
+        node = fj.get('node')
+        cb = ctx.f.bodies.get(node) if node is not None and not b.poly else None
+        if cb is None or not cb.is_closure:
+            continue
+        digs = [cs for cs in cb.calls if 'is_ascii_digit' in cs.name]
+        if len(digs) != 1 or len([cs for cs in cb.calls]) != 1:
+            continue
+        defs0 = cb.defs.get(0, [])
+        if len(defs0) == 1 and defs0[0][1] == 'assign' and defs0[0][2]['rv']['k'] == 'unop' and defs0[0][2]['rv']['op'] == 'Not':
+            ol = op_local(defs0[0][2]['rv']['a'])
+            if ol is not None and any(o[0] == 'call' and o[1] is digs[0] for o in cb.trace_local(ol)):
+                return True
+    return False
+
+
 def digit_gate_edges(ctx, b):
     """Edges of the parser body on which every byte of the candidate number is known to be an ASCII digit:
     the true edge of `iter.all(is_ascii_digit)` (fn item or forwarding closure), or the exhausted edge of an
@@ -124,6 +145,10 @@ def digit_gate_edges(ctx, b):
     for (bi, c, te, fe, cs) in b.switches_on_call(lambda c: 'Iterator>::all' in c.name):
         if _digit_pred_fn(ctx, b, cs.point):
             out.append(te)
+    # `iter.any(|b| !b.is_ascii_digit())`: all digits on its FALSE edge
+    for (bi, c, te, fe, cs) in b.switches_on_call(lambda c: 'Iterator>::any' in c.name):
+        if _not_digit_pred_fn(ctx, b, cs.point):
+            out.append(fe)
     for L in b.loops():
         nxt = [cs for cs in b.calls if cs.block in L['blocks'] and re.search(r'Iterator>::next$', cs.name) and re.search(r'str::Bytes|str::Chars|slice::Iter<\'_, u8>|iter::Copied<std::slice::Iter<\'_, u8>>', cs.name)]
         dig = [(bi, c, te, fe, cs) for (bi, c, te, fe, cs) in b.switches_on_call(lambda c: 'is_ascii_digit' in c.name) if cs.block in L['blocks']]
